@@ -4,14 +4,19 @@
 //! C17 observe points) also runs in the destructive configuration; the others are control-only.
 //! flavours: 0 BigUint; 1 BigInt (aux[0] = 1: sign flipped to minus, N-NEG); 2 primitive-types
 //! U128/U256/U512; 3 primitive-types H128/H160/H256/H512 <-> Bits; 4 ark-ff 0.4 `BigInt<N>`;
-//! 5 ark-ff 0.3 `BigIntegerN`; 6 ark-ff 0.4 bn254 `Fr`; 7 ark-ff 0.3 bn254 `Fr`.
+//! 5 ark-ff 0.3 `BigIntegerN`; 6 ark-ff 0.4 bn254 `Fr`; 7 ark-ff 0.3 bn254 `Fr`;
+//! 8 / 9 / 10 ark-ff 0.4 prime fields of one, two and three limbs defined here (`small_fields`: the
+//! Goldilocks prime 2^64 - 2^32 + 1, 2^128 - 159 and the NIST P-192 prime - all close to the top of
+//! their limb array, so that only a few values are NOT in the field and have to be refused);
+//! 11 ark-ff 0.3 `Fp64` over 2^63 - 25 (added after the sub-agent change c16y, which only shows in a
+//! field whose modulus fits one limb).
 
 use super::*;
 use crate::num::{self, nbytes};
 use num_bigint::{BigInt, BigUint, Sign};
 use ruint::{Bits, Uint};
 
-pub const FLAVOURS: u32 = 8;
+pub const FLAVOURS: u32 = 12;
 pub const STRICT: bool = false;
 pub use super::no as lossy;
 pub const SEAMLESS: bool = true;
@@ -27,7 +32,77 @@ pub fn supports(bits: usize, flavour: u32) -> bool {
         3 => matches!(bits, 128 | 160 | 256 | 512),
         4 => bits > 0,
         5 => matches!(bits, 64 | 128 | 256 | 320 | 384 | 448 | 768 | 832),
-        _ => bits == 256,
+        6 | 7 => bits == 256,
+        8 | 11 => bits == 64,
+        9 => bits == 128,
+        _ => bits == 192,
+    }
+}
+
+/// Prime fields of one, two and three limbs (bn254, the only field crate in the offline registry, has four).
+#[allow(clippy::all, clippy::pedantic, missing_docs, non_local_definitions)]
+pub mod small_fields {
+    // the `MontConfig` derive emits `ark_ff::` paths
+    use ark_ff_04 as ark_ff;
+    use ark_ff_04::fields::{Fp128, Fp192, Fp64, MontBackend, MontConfig};
+
+    #[derive(MontConfig)]
+    #[modulus = "18446744069414584321"]
+    #[generator = "7"]
+    pub struct GoldilocksConfig;
+    pub type F64 = Fp64<MontBackend<GoldilocksConfig, 1>>;
+    pub const P64: &str = "ffffffff00000001";
+
+    #[derive(MontConfig)]
+    #[modulus = "340282366920938463463374607431768211297"]
+    #[generator = "5"]
+    pub struct P128Config;
+    pub type F128 = Fp128<MontBackend<P128Config, 2>>;
+    pub const P128: &str = "ffffffffffffffffffffffffffffff61";
+
+    #[derive(MontConfig)]
+    #[modulus = "6277101735386680763835789423207666416083908700390324961279"]
+    #[generator = "11"]
+    pub struct P192Config;
+    pub type F192 = Fp192<MontBackend<P192Config, 3>>;
+    pub const P192: &str = "fffffffffffffffffffffffffffffffeffffffffffffffff";
+
+    // ark-ff 0.3: hand-written parameters for p = 2^63 - 25 (prime, one spare bit as ark-ff 0.3's
+    // Montgomery code expects); constants computed with sympy: R = 2^64 mod p, R2 = R^2 mod p,
+    // INV = -p^-1 mod 2^64, generator 3.
+    use ark_ff_03::{biginteger::BigInteger64 as B64, fields::{FftParameters, Fp64 as Fp64v3, Fp64Parameters, FpParameters}};
+    pub struct P63Params;
+    impl FftParameters for P63Params {
+        type BigInt = B64;
+        const TWO_ADICITY: u32 = 1;
+        const TWO_ADIC_ROOT_OF_UNITY: B64 = B64([0x7fff_ffff_ffff_ffb5]);
+    }
+    impl FpParameters for P63Params {
+        const MODULUS: B64 = B64([0x7fff_ffff_ffff_ffe7]);
+        const MODULUS_BITS: u32 = 63;
+        const REPR_SHAVE_BITS: u32 = 1;
+        const R: B64 = B64([0x32]);
+        const R2: B64 = B64([0x9c4]);
+        const INV: u64 = 0x0f5c_28f5_c28f_5c29;
+        const GENERATOR: B64 = B64([0x96]);
+        const CAPACITY: u32 = 62;
+        const T: B64 = B64([0x3fff_ffff_ffff_fff3]);
+        const T_MINUS_ONE_DIV_TWO: B64 = B64([0x1fff_ffff_ffff_fff9]);
+        const MODULUS_MINUS_ONE_DIV_TWO: B64 = B64([0x3fff_ffff_ffff_fff3]);
+    }
+    impl Fp64Parameters for P63Params {}
+    pub type F63v3 = Fp64v3<P63Params>;
+    pub const P63: &str = "7fffffffffffffe7";
+}
+
+fn modulus(flavour: u32) -> Option<&'static str> {
+    match flavour {
+        6 | 7 => Some(BN254_FR),
+        8 => Some(small_fields::P64),
+        9 => Some(small_fields::P128),
+        10 => Some(small_fields::P192),
+        11 => Some(small_fields::P63),
+        _ => None,
     }
 }
 pub fn framing(_p: &Plan) -> Framing {
@@ -42,7 +117,7 @@ pub use super::no_pad0 as pad0;
 const BN254_FR: &str = "30644e72e131a029b85045b68181585d2833e84879b9709143e1f593f0000001";
 
 pub fn may_refuse(p: &Plan, vals: &[Num]) -> bool {
-    p.flavour >= 6 && num::cmp(&vals[0], &num::unhex(BN254_FR).unwrap()) != std::cmp::Ordering::Less
+    modulus(p.flavour).is_some_and(|m| num::cmp(&vals[0], &num::unhex(m).unwrap()) != std::cmp::Ordering::Less)
 }
 
 pub fn ref_enc(p: &Plan, vals: &[Num]) -> Vec<u8> {
@@ -93,6 +168,34 @@ fn num_to_limbs<const N: usize>(n: &Num) -> Option<[u64; N]> {
         l[i / 8] |= u64::from(b) << (8 * (i % 8));
     }
     Some(l)
+}
+
+/// ark-ff 0.4 `Fp<MontBackend<_, N>, N>` of a field defined in `small_fields`: Uint -> Fp by value and by
+/// reference must agree; the canonical representative is what reaches the medium.
+fn fp04<F, const B2: usize, const N: usize>(ws: &mut WriteSeam, v: &Num) -> Result<Num, String>
+where
+    F: ark_ff_04::PrimeField<BigInt = ark_ff_04::BigInt<N>> + TryFrom<Uint<B2, N>, Error = ruint::ToFieldError> + for<'a> TryFrom<&'a Uint<B2, N>, Error = ruint::ToFieldError>,
+{
+    let u = num::to_uint::<B2, N>(v);
+    let f = F::try_from(u).map_err(|e| format!("{e:?}"))?;
+    if F::try_from(&u).ok() != Some(f) {
+        ws.ctx.violate("ENC!=REF", "Fp::try_from(Uint) and try_from(&Uint) differ");
+    }
+    Ok(limbs_to_num(&f.into_bigint().0))
+}
+
+fn from_fp04<F, const B2: usize, const N: usize>(rs: &mut ReadSeam, mag: &Num) -> Result<Num, String>
+where
+    F: ark_ff_04::PrimeField<BigInt = ark_ff_04::BigInt<N>>,
+    Uint<B2, N>: From<F> + for<'a> From<&'a F>,
+{
+    let l: [u64; N] = num_to_limbs(mag).ok_or("harness: too wide")?;
+    let f = F::from_bigint(ark_ff_04::BigInt::<N>::new(l)).ok_or("harness: not in field")?;
+    let u = <Uint<B2, N> as From<F>>::from(f);
+    if <Uint<B2, N> as From<&F>>::from(&f) != u {
+        rs.ctx.violate("LIE", "From<Fp> and From<&Fp> disagree");
+    }
+    Ok(rs.ctx.observe("From<Fp 0.4, small field>", &u))
 }
 
 pub fn encode<const B: usize, const L: usize>(ws: &mut WriteSeam, p: &Plan, vals: &[Num]) -> EncResult {
@@ -152,6 +255,17 @@ pub fn encode<const B: usize, const L: usize>(ws: &mut WriteSeam, p: &Plan, vals
                 ws.ctx.violate("ENC!=REF", "Fp::try_from(Uint) and try_from(&Uint) differ");
             }
             limbs_to_num(&f.into_bigint().0)
+        }
+        8 => fp04::<small_fields::F64, 64, 1>(ws, v)?,
+        9 => fp04::<small_fields::F128, 128, 2>(ws, v)?,
+        10 => fp04::<small_fields::F192, 192, 3>(ws, v)?,
+        11 => {
+            use ark_ff_03::PrimeField;
+            let f = small_fields::F63v3::try_from(num::to_uint::<64, 1>(v)).map_err(|e| format!("{e:?}"))?;
+            if small_fields::F63v3::try_from(&num::to_uint::<64, 1>(v)).ok() != Some(f) {
+                ws.ctx.violate("ENC!=REF", "Fp::try_from(Uint) and try_from(&Uint) differ");
+            }
+            limbs_to_num(&f.into_repr().0)
         }
         _ => {
             use ark_ff_03::PrimeField;
@@ -307,6 +421,19 @@ pub fn decode<const B: usize, const L: usize>(rs: &mut ReadSeam, p: &Plan) -> De
                 rs.ctx.violate("LIE", "From<Fp> and From<&Fp> disagree");
             }
             rs.ctx.observe("From<Fr 0.4>", &u)
+        }
+        8 => from_fp04::<small_fields::F64, 64, 1>(rs, &mag)?,
+        9 => from_fp04::<small_fields::F128, 128, 2>(rs, &mag)?,
+        10 => from_fp04::<small_fields::F192, 192, 3>(rs, &mag)?,
+        11 => {
+            use ark_ff_03::PrimeField;
+            let l: [u64; 1] = num_to_limbs(&mag).ok_or("harness: too wide")?;
+            let f = small_fields::F63v3::from_repr(ark_ff_03::biginteger::BigInteger64(l)).ok_or("harness: not in field")?;
+            let u = <Uint<64, 1> as From<_>>::from(f);
+            if <Uint<64, 1> as From<&small_fields::F63v3>>::from(&f) != u {
+                rs.ctx.violate("LIE", "From<Fp> and From<&Fp> disagree");
+            }
+            rs.ctx.observe("From<Fp64 0.3>", &u)
         }
         _ => {
             use ark_ff_03::PrimeField;
